@@ -75,6 +75,18 @@ Proof. exact vector_failed_owns_same_thm. Qed.
 Theorem C15_ctor_failed_leaves_nothing : forall hsz msz ts al, out (script_ctor hsz msz ts 1 al) = Failed ->
   safe ledger0 (evs (script_ctor hsz msz ts 1 al)) /\ forall b, own (run ledger0 (evs (script_ctor hsz msz ts 1 al))) b = false.
 Proof. exact ctor_failed_leaves_nothing_thm. Qed.
+Theorem C15_qvector_failed_leaves_nothing : forall Sz max osz ts pol al, out (script_qvector Sz max osz ts pol 1 al) = Failed ->
+  safe ledger0 (evs (script_qvector Sz max osz ts pol 1 al)) /\ forall b, own (run ledger0 (evs (script_qvector Sz max osz ts pol 1 al))) b = false.
+Proof. exact qvector_failed_leaves_nothing_thm. Qed.
+Theorem C15_qhashtbl_failed_leaves_nothing : forall Sz range ts al, out (script_qhashtbl Sz range ts 1 al) = Failed ->
+  safe ledger0 (evs (script_qhashtbl Sz range ts 1 al)) /\ forall b, own (run ledger0 (evs (script_qhashtbl Sz range ts 1 al))) b = false.
+Proof. exact qhashtbl_failed_leaves_nothing_thm. Qed.
+Theorem C15_wrapper_failed_leaves_nothing : forall osz Sz ts al, out (script_wrapper osz Sz ts 1 al) = Failed ->
+  safe ledger0 (evs (script_wrapper osz Sz ts 1 al)) /\ forall b, own (run ledger0 (evs (script_wrapper osz Sz ts 1 al))) b = false.
+Proof. exact wrapper_failed_leaves_nothing_thm. Qed.
+(* --- a call that completes normally did exactly what the fault-free run does (same events, same result, same summary) --- *)
+Theorem C15_tree_ok : forall Sz g o k al, out (tree_step Sz g o k al) = Done -> tree_step Sz g o k al = tree_step Sz g o k allok.
+Proof. exact tree_step_ok. Qed.
 Theorem C15_hashtbl_ok : forall Sz g o k al, out (hash_step Sz g o k al) = Done -> hash_step Sz g o k al = hash_step Sz g o k allok.
 Proof. exact hash_step_ok. Qed.
 Theorem C15_listtbl_ok : forall Sz g o k al, out (ltbl_step Sz g o k al) = Done -> ltbl_step Sz g o k al = ltbl_step Sz g o k allok.
